@@ -5,7 +5,7 @@
 From Coq Require Import List ZArith QArith Qround Bool.
 From PV Require Import lib.Sx lib.Str lib.Result lib.Dec.
 From PV Require Import model.Base spec.SpecBase model.TimeWrite spec.SpecTimeW proofs.TimeWriteFacts.
-From PV Require model.Langs spec.SpecTimeSamiDoc proofs.TimeSamiDocFacts.
+From PV Require model.Langs spec.SpecTimeSamiDoc proofs.TimeSamiDocFacts proofs.TimeFloatFacts.
 Import ListNotations.
 Open Scope Z_scope.
 
@@ -259,3 +259,17 @@ Example C02_ex_sami_three_languages :
   doc_obs (lit "en") (Langs.sami_write cs) = [(1000, false); (2000, false); (2000, true); (5000, false)].
 Proof. vm_compute. repeat split; reflexivity. Qed.
 End SamiDocument.
+
+(* ---- wave 5: the binary64 computation int(micro * 25.0 / 10**6) of the real MicroDVD writer ----------------------
+   For integer microseconds below 24 h it equals the exact floor that model and spec use.  Interval argument, the
+   rounding function abstract: micro*25 < 2^53 is exact; the one rounded operation (the division) returns an integer
+   quotient unchanged and is otherwise off by at most 2^-31 below 2^22 (binary64: 2^-32), while a non-integer quotient
+   is at least 10^-6 away from the neighbouring integers.  (floor_frames (inject_Z t) = t * 25 / 1000000:
+   C02_mdvd_frames_int.) *)
+Theorem C02_mdvd_frames_binary64 : forall (rnd : Q -> Q) (t : Z),
+  TimeFloatFacts.rounds_like_binary64_below_2p22 rnd -> (0 <= t < 86400000000)%Z ->
+  Qfloor (rnd ((t * 25) # 1000000)) = (t * 25 / 1000000)%Z.
+Proof. exact TimeFloatFacts.mdvd_frames_binary64. Qed.
+Print Assumptions C02_mdvd_frames_binary64.
+Example C02_ex_rounding_premise : TimeFloatFacts.rounds_like_binary64_below_2p22 (fun y => y).
+Proof. exact TimeFloatFacts.rounds_like_id. Qed.
